@@ -14,6 +14,8 @@ pub enum Call {
     Reset,
     /// assign the public fields min_opcodes / max_opcodes (what the Python set_opcode_range does)
     SetRange(usize, usize),
+    /// assign the public fields allow_ext_opcodes / allow_buffer_opcodes on the live generator
+    SetFlags(bool, bool),
 }
 
 impl Call {
@@ -23,6 +25,7 @@ impl Call {
             Call::Seeded => "generate()".into(),
             Call::Reset => "reset()".into(),
             Call::SetRange(a, b) => format!("min_opcodes={a}; max_opcodes={b}"),
+            Call::SetFlags(e, b) => format!("allow_ext_opcodes={e}; allow_buffer_opcodes={b}"),
         }
     }
     pub fn to_json(&self) -> serde_json::Value {
@@ -31,6 +34,7 @@ impl Call {
             Call::Seeded => json!({"call": "generate"}),
             Call::Reset => json!({"call": "reset"}),
             Call::SetRange(a, b) => json!({"call": "set_range", "min": a, "max": b}),
+            Call::SetFlags(e, b) => json!({"call": "set_flags", "ext": e, "buffer": b}),
         }
     }
     pub fn from_json(v: &serde_json::Value) -> Call {
@@ -38,6 +42,7 @@ impl Call {
             Some("generate_from_arbitrary") => Call::Bytes(lexer::unhex(v["bytes_hex"].as_str().unwrap_or(""))),
             Some("generate") => Call::Seeded,
             Some("set_range") => Call::SetRange(v["min"].as_u64().unwrap_or(0) as usize, v["max"].as_u64().unwrap_or(0) as usize),
+            Some("set_flags") => Call::SetFlags(v["ext"].as_bool().unwrap_or(false), v["buffer"].as_bool().unwrap_or(false)),
             _ => Call::Reset,
         }
     }
@@ -53,6 +58,10 @@ pub fn run_history(cfg: &Cfg, seed: u64, h: &[Call]) -> Vec<(usize, Result<Vec<u
             Call::SetRange(a, b) => {
                 g.min_opcodes = *a;
                 g.max_opcodes = *b;
+            }
+            Call::SetFlags(e, b) => {
+                g.allow_ext_opcodes = *e;
+                g.allow_buffer_opcodes = *b;
             }
             Call::Bytes(b) => {
                 let _w = crate::watch::enter(cfg, b, None);
@@ -80,6 +89,10 @@ pub fn cfg_at(cfg: &Cfg, h: &[Call], i: usize) -> Cfg {
         if let Call::SetRange(a, b) = x {
             c.min = *a;
             c.max = *b;
+        }
+        if let Call::SetFlags(e, b) = x {
+            c.ext = *e;
+            c.buffer = *b;
         }
     }
     c
@@ -169,6 +182,11 @@ pub fn c08(tier: &str) -> i32 {
             }
         }
     }
+    // reconfiguration between calls: the opt-in flags are public fields; a later call obeys the flags in force then
+    for (cfg, seed, h) in flag_flip_histories(quick) {
+        jobs.push((cfg, seed, h));
+        n_hist += 1;
+    }
     let results: Vec<(u64, Vec<(String, String, serde_json::Value)>)> = jobs
         .par_iter()
         .map(|(cfg, seed, h)| {
@@ -223,6 +241,69 @@ pub fn c08(tier: &str) -> i32 {
         "differential oracle only: no expected bytes are hand-written".into(),
     ];
     rep.finish(true, "all call histories up to the stated length over the stated alphabet, per protocol and configuration; states = histories, transitions = generating calls compared")
+}
+
+/// one generator, flags (from) -> generate -> flags (to) -> generate, for every ordered pair of flag settings
+pub fn flag_flip_histories(quick: bool) -> Vec<(Cfg, u64, Vec<Call>)> {
+    let mut v = vec![];
+    let flags = [(false, false), (true, false), (false, true), (true, true)];
+    for p in 2..=5u8 {
+        for from in flags {
+            for to in flags {
+                if from == to {
+                    continue;
+                }
+                let seeds: Vec<u64> = if quick { vec![3] } else { vec![3, 4, 5, 6] };
+                for sd in seeds {
+                    let coin: Vec<u8> = if p >= 4 { vec![1] } else { vec![] };
+                    let bytes = Call::Bytes([coin, (0..200u8).map(|i| i.wrapping_mul(37).wrapping_add(11)).collect::<Vec<u8>>()].concat());
+                    v.push((Cfg::new(p).flags(from.0, from.1), sd, vec![Call::Seeded, Call::SetFlags(to.0, to.1), Call::Seeded]));
+                    v.push((Cfg::new(p).flags(from.0, from.1), sd, vec![bytes.clone(), Call::SetFlags(to.0, to.1), Call::Reset, bytes.clone()]));
+                    v.push((Cfg::new(p).flags(from.0, from.1).muts(&Mk::ALL, 0.5, true), sd, vec![Call::Seeded, Call::SetFlags(to.0, to.1), Call::Seeded, Call::SetFlags(from.0, from.1), Call::Seeded]));
+                }
+            }
+        }
+    }
+    v
+}
+
+/// C10 on reconfigured generators: every output of the flag-flip histories is decoded and EXT* / buffer opcodes are
+/// reported when the flag in force at that call is off
+pub fn c10_flag_histories(rep: &mut Report, quick: bool) {
+    let hs = flag_flip_histories(quick);
+    let res: Vec<Vec<(String, String, serde_json::Value)>> = hs
+        .par_iter()
+        .map(|(cfg, seed, h)| {
+            let mut bad = vec![];
+            for (i, r) in run_history(cfg, *seed, h) {
+                let c = cfg_at(cfg, h, i);
+                let Ok(b) = r else { continue };
+                let Ok((ops, _)) = lexer::genops(&b) else { continue };
+                for op in &ops {
+                    let ext = matches!(op.code, 0x82 | 0x83 | 0x84);
+                    let buf = matches!(op.code, 0x97 | 0x98);
+                    if (ext && !c.ext) || (buf && !c.buffer) {
+                        bad.push((
+                            format!("{}-without-flag:{}:after-flag-change", if ext { "ext" } else { "buffer" }, lexer::name(op.code)),
+                            format!("{}: call #{i} of a generator whose flags were changed between calls emitted {} at byte {} although the flag in force is off", c.describe(), lexer::name(op.code), op.pos),
+                            json!({"kind": "history", "config": cfg.to_json(), "seed": seed, "calls": h.iter().map(|c| c.to_json()).collect::<Vec<_>>(), "failing_call": i}),
+                        ));
+                        break;
+                    }
+                }
+            }
+            bad
+        })
+        .collect();
+    let mut calls = 0u64;
+    for (x, (_, _, h)) in res.into_iter().zip(hs.iter()) {
+        calls += h.iter().filter(|c| matches!(c, Call::Seeded | Call::Bytes(_))).count() as u64;
+        for (c, m, r) in x {
+            rep.finding_raw(&c, &m, r);
+        }
+    }
+    rep.transitions += calls;
+    rep.set("flag_change_histories", json!({"histories": hs.len(), "generating_calls": calls, "note": "one generator: flags A, generate, flags B, generate (all ordered pairs of the four flag settings, protocols 2..5, seeded / fuzzer bytes / all mutators unsafe)"}));
 }
 
 pub fn replay(v: &serde_json::Value) -> i32 {
